@@ -32,6 +32,9 @@ edges leaving `u`, in edge-list order. -/
 def adjOf {W : Type} (E : List (Edge W)) (u : Nat) : List (Nat × W) :=
   E.filterMap fun e => if e.1 = u then some (e.2.1, e.2.2) else none
 
+/-- the unweighted graph: every edge with weight 1 (walk weight = number of edges) -/
+def unitE {W : Type} (E : List (Edge W)) : List (Edge Int) := E.map fun e => (e.1, e.2.1, 1)
+
 /-- unweighted view -/
 def succOf {W : Type} (E : List (Edge W)) (u : Nat) : List Nat := (adjOf E u).map (·.1)
 
@@ -54,14 +57,16 @@ def IsGoalDist {W : Type} [Add W] [Zero W] [LE W] (E : List (Edge W)) (s : Nat) 
 section checkers
 variable {W : Type} [Add W] [Zero W] [LE W] [DecidableLE W] [DecidableEq W]
 
+/-- one step of the scan for the least weight among the parallel edges `u → v` -/
+def edgeCostStep (u v : Nat) (acc : Option W) (e : Edge W) : Option W :=
+  if e.1 = u ∧ e.2.1 = v then
+    match acc with
+    | none => some e.2.2
+    | some m => if e.2.2 ≤ m then some e.2.2 else some m
+  else acc
+
 /-- least weight among the parallel edges `u → v` (`none`: no such edge) -/
-def edgeCost (E : List (Edge W)) (u v : Nat) : Option W :=
-  E.foldl (fun acc e =>
-    if e.1 = u ∧ e.2.1 = v then
-      match acc with
-      | none => some e.2.2
-      | some m => if e.2.2 ≤ m then some e.2.2 else some m
-    else acc) none
+def edgeCost (E : List (Edge W)) (u v : Nat) : Option W := E.foldl (edgeCostStep u v) none
 
 /-- Weight of a node path (cheapest parallel edge at every step); `none` if a step is not an edge
 or the path is empty. -/
@@ -241,8 +246,8 @@ structure BFRes where
   cost   : Option Int
   deriving Repr
 
-def bellmanFord (n : Nat) (E : List (Edge Int)) (s : Nat) (target : Option Nat) : BFRes :=
-  let st := bfRounds E (n - 1) (bfInit n s)
+/-- the detection round and the construction of the result -/
+def bfFinish (n : Nat) (E : List (Edge Int)) (st : BFSt) (target : Option Nat) : BFRes :=
   if E.any (relaxable st.dist) then ⟨.UNBOUNDED, st.dist, st.par, none, none⟩
   else
     match target with
@@ -251,6 +256,9 @@ def bellmanFord (n : Nat) (E : List (Edge Int)) (s : Nat) (target : Option Nat) 
       match look st.dist t with
       | none => ⟨.INFEASIBLE, st.dist, st.par, none, none⟩
       | some c => ⟨.OPTIMAL, st.dist, st.par, reconIdx st.par (n + 1) t [], some c⟩
+
+def bellmanFord (n : Nat) (E : List (Edge Int)) (s : Nat) (target : Option Nat) : BFRes :=
+  bfFinish n E (bfRounds E (n - 1) (bfInit n s)) target
 
 /-- Negative-cycle extraction for the UNBOUNDED verdict (model side only: the code returns no
 cycle).  Relax the first relaxable edge once more, walk `n` parent steps back from its head to land
@@ -554,9 +562,9 @@ def gridFloat (G : Grid) (s t : Nat) (hname : String) (weight : Float) (maxIter 
       (nb.1, if nb.2.2 then base * Float.sqrt 2.0 else base)
   let h : Nat → Float := fun v =>
     if G.cols = 0 then 0.0 else
-    let dr := Int.natAbs ((v / G.cols : Nat) - (t / G.cols : Nat) : Int)
-    let dc := Int.natAbs ((v % G.cols : Nat) - (t % G.cols : Nat) : Int)
-    gridH hname dr dc
+    let dr := Int.natAbs (Int.ofNat (v / G.cols) - Int.ofNat (t / G.cols))
+    let dc := Int.natAbs (Int.ofNat (v % G.cols) - Int.ofNat (t % G.cols))
+    gridH (if hname = "auto" then (if G.eight then "octile" else "manhattan") else hname) dr dc
   hSearch floatNum n (8 * n) adj (fun g v => g + weight * h v) s (· == t) maxIter none
     (if weight == 1.0 then .OPTIMAL else .FEASIBLE)
 
